@@ -254,6 +254,35 @@ func (e *Eng) callBuiltin(caller *frame, pos token.Pos, fn *ssa.Builtin, args []
 		}
 		return recv
 
+	case "String": // unsafe.String(ptr, len)
+		n := e.idx64(args[1].(*Term), fn.Type().(*types.Signature).Params().At(1).Type())
+		switch p := args[0].(type) {
+		case BytePtr:
+			return e.strVal(SliceVal{p.Obj, p.Idx, n, n})
+		case NilPtr:
+			return ""
+		}
+		e.unsupported("unsafe.String of %T", args[0])
+	case "Slice": // unsafe.Slice(ptr, len)
+		n := e.idx64(args[1].(*Term), fn.Type().(*types.Signature).Params().At(1).Type())
+		switch p := args[0].(type) {
+		case BytePtr:
+			return SliceVal{p.Obj, p.Idx, n, n}
+		case NilPtr:
+			return e.nilSlice()
+		}
+		e.unsupported("unsafe.Slice of %T", args[0])
+	case "SliceData":
+		if s, ok := args[0].(SliceVal); ok {
+			if s.Obj == nil {
+				return NilPtr{}
+			}
+			return BytePtr{s.Obj, s.Off}
+		}
+		e.unsupported("unsafe.SliceData of %T", args[0])
+	case "StringData":
+		v := e.strView(args[0])
+		return BytePtr{v.Obj, v.Off}
 	case "Sizeof":
 		T := fn.Type().(*types.Signature).Params().At(0).Type()
 		return tb.Const(64, uint64(types.SizesFor("gc", "amd64").Sizeof(T)))
